@@ -125,7 +125,7 @@ package fscache
 //@ func WithEncryption
 //@   trusted
 //@   property C17
-//@   fresh
+//@   pure
 //@   ensures isEncOption(result) && result != nil
 //@ func WithEncryption$1
 //@   property C17
